@@ -1,5 +1,5 @@
 """C13 - an accepted resume replays a gapless tail; the replay buffer stays bounded (src/stream.rs)."""
-from analysis.flow import must_cross, return_points, term_pt
+from analysis.flow import path_counts, must_cross, return_points, term_pt
 from analysis.guards import facts_at, field_writes
 from analysis.mir import callee_matches, op_place
 from analysis.sym import Sym, render, is_call, const_val, walk
@@ -21,6 +21,7 @@ EXPLANATION = (
     "(advance-clears) advance_to_file always clears the ring and drops the pending resume. Not decided: contiguity of "
     "offsets across pushes (producer arithmetic, only a debug_assert) and the numeric capacity bound itself."
     ' advance-clears is applied to every TransferControl function that stores current_file_index (ring emptied and pending_resume cleared on every path), not to advance_to_file alone.'
+    ' Every function that stages a resume takes the control mutex at most once per path: the gate and the staging are one critical section.'
 )
 ASSUMPTIONS = ["VecDeque push_back/pop_front/iter are FIFO", "Arc<Vec<u8>> clone shares the same bytes"]
 
@@ -159,6 +160,13 @@ def run(facts, R):
       gate_sites = [(w["bb"], w["span"], w) for w in field_writes(facts, INNER, "peer") if w["body"] is rr]
       gate_sites += [(w["bb"], w["span"], w) for w in field_writes(facts, INNER, "pending_resume") if w["body"] is rr]
       oks = blocks_assigning_variant(rr, "std::result::Result", "Ok")
+      # the gate and the staging are one critical section: facts tested under one hold of the control mutex say nothing about the state
+      # found after it was released and taken again (an advance_to_file or a cancel can run in between)
+      lk_ = [i_ for i_, t_ in rr.calls() if t_["callee"]["name"] in ("lock", "try_lock") and "Mutex" in t_["callee"]["path"] and render(sym.op(t_["args"][0])).endswith(".inner")]
+      pc_ = path_counts(rr, lk_) if lk_ else None
+      R.check(bool(lk_) and pc_ is not None and pc_[1] <= 1, "resume-gate", rr.path, "validated and staged under one hold of the lock",
+              "%s takes the control mutex %s times on some path: what it validated (not cancelled, current file, offset covered) can be stale when it stages the resume"
+              % (rr.path.rsplit("::", 1)[-1], pc_[1] if pc_ else "?"), rr.span, "one lock acquisition per path")
       if rr_path == TC + "::request_resume":
           R.floor("resume-gate", len(gate_sites), 2, "peer/pending_resume stores in request_resume")
           R.floor("resume-gate", len(oks), 1, "Ok exits of request_resume")
